@@ -389,6 +389,11 @@ class Body:
                         x = x[2][0]
                     else:
                         x = x[1]
+                n2 = 0
+                while x[0] == "phi" and x[1] not in (ret, dest) and len(x) > 3 and len(x[3]) == 1 and n2 < 4:
+                    # a forwarding temporary (`_t = move result`) whose single alternative is the correlated local
+                    x = x[3][0]
+                    n2 += 1
                 if x[0] == "phi" and x[1] == ret or (x[0] in ("local", "phi") and x[1] in (ret, dest)):
                     m = {}
                     for (t, lab, mean) in si["edges"]:
@@ -421,28 +426,43 @@ class Body:
                     dq.append(t)
         return seen
 
-    def _reachable_corr(self, starts, removed_blocks, removed_edges):
-        """Reachability over (block, known constructor of an inlined helper's result): infeasible Ok/Err combinations are pruned."""
+    MAX_CORR_VARS = 4
+
+    @staticmethod
+    def _corr_update(state, d):
+        """state: tuple of (var, tag) pairs, most recent last.  A new definition of `var` replaces its entry (tag None = unknown)."""
+        var, tag = d
+        st = tuple(x for x in state if x[0] != var)
+        if tag is not None:
+            st = st + ((var, tag),)
+        return st[-Body.MAX_CORR_VARS:]
+
+    def _corr_walk(self, start_states, removed_blocks, removed_edges):
         defs_tag, sw_tag = self._corr_tables()
-        seen = set()
-        dq = deque((s, None) for s in starts if s not in removed_blocks)
-        seen.update(dq)
+        seen = set(start_states)
+        dq = deque(start_states)
         while dq:
-            b, tag = dq.popleft()
+            b, state = dq.popleft()
             if b in defs_tag:
-                tag = defs_tag[b] if defs_tag[b][1] is not None else None
+                state = self._corr_update(state, defs_tag[b])
+            known = dict(state)
             for (t, lab) in self.succ(b):
                 if t in removed_blocks or (b, t) in removed_edges or (b, t, lab) in removed_edges:
                     continue
-                if b in sw_tag and tag is not None and sw_tag[b][0] == tag[0]:
+                if b in sw_tag and sw_tag[b][0] in known:
                     want = sw_tag[b][1].get(lab)
-                    if want is not None and want != tag[1]:
+                    if want is not None and want != known[sw_tag[b][0]]:
                         continue
-                st = (t, tag)
+                st = (t, state)
                 if st not in seen:
                     seen.add(st)
                     dq.append(st)
-        return {b for (b, tag) in seen}
+        return {b for (b, state) in seen}
+
+    def _reachable_corr(self, starts, removed_blocks, removed_edges):
+        """Reachability over (block, known constructors / flag values of correlated locals): infeasible combinations of a
+        definition (`Ok(..)`, `Err(..)`, `true`, `false`) and a later test of that local are pruned."""
+        return self._corr_walk([(s, ()) for s in starts if s not in removed_blocks], removed_blocks, removed_edges)
 
     def reach_after(self, bb, removed_blocks=(), removed_edges=()):
         """Blocks reachable strictly after leaving `bb` (bb itself only if on a cycle)."""
@@ -457,26 +477,8 @@ class Body:
             return set()
         if self._has_corr() and bb in self._corr_tables()[0]:
             # keep the constructor knowledge established in bb itself
-            defs_tag, sw_tag = self._corr_tables()
-            tag = defs_tag[bb] if defs_tag[bb][1] is not None else None
-            seen = set()
-            dq = deque((s, tag) for s in starts)
-            seen.update(dq)
-            while dq:
-                b, tg = dq.popleft()
-                if b in defs_tag:
-                    tg = defs_tag[b] if defs_tag[b][1] is not None else None
-                for (t, lab) in self.succ(b):
-                    if t in removed_blocks or (b, t) in removed_edges or (b, t, lab) in removed_edges:
-                        continue
-                    if b in sw_tag and tg is not None and sw_tag[b][0] == tg[0]:
-                        want = sw_tag[b][1].get(lab)
-                        if want is not None and want != tg[1]:
-                            continue
-                    if (t, tg) not in seen:
-                        seen.add((t, tg))
-                        dq.append((t, tg))
-            return {b for (b, tg) in seen}
+            state = self._corr_update((), self._corr_tables()[0][bb])
+            return self._corr_walk([(s, state) for s in starts], removed_blocks, removed_edges)
         return self.reachable_blocks(starts, removed_blocks, removed_edges)
 
     def return_blocks(self):
